@@ -22,3 +22,11 @@ package types
 //@   returns err
 //@   ensures valid: err == nil ==> assetsOK(p.AssetParams)
 //@ end
+
+// Genesis validation (assumed contract for the part InitGenesis relies on: the ids of the listed contracts are distinct)
+//@ func ValidateGenesis
+//@   property C12
+//@   trusted
+//@   returns err
+//@   ensures unique_ids: err == nil ==> (forall a:Int :: forall b:Int :: 0 <= a && a < b && b < len(data.Htlcs) ==> data.Htlcs[a].Id != data.Htlcs[b].Id)
+//@ end
